@@ -170,6 +170,23 @@ func (e *specEnv) eval(x Expr) Val {
 			return base.Fs[i]
 		}
 		if strings.HasPrefix(n.Name, "$") {
+			// an object whose type defines this ghost attribute over its real fields (ghostdef): the definition
+			if base.T != nil && w.cs.GhostDefs != nil {
+				if gd, ok := w.cs.GhostDefs[strings.TrimPrefix(namedKey(base.T), "*")+"."+n.Name]; ok {
+					saved, had := e.vars[gd.Var]
+					savedPkg := e.pkg
+					e.vars[gd.Var] = base
+					e.pkg = gd.Pkg
+					v := e.eval(gd.E)
+					e.pkg = savedPkg
+					if had {
+						e.vars[gd.Var] = saved
+					} else {
+						delete(e.vars, gd.Var)
+					}
+					return v
+				}
+			}
 			cls := "ghost:" + n.Name
 			srt, ok := w.classes[cls]
 			if !ok {
